@@ -1012,7 +1012,7 @@ class Steward():
         data['fragment'] = fragment
 
         data['headers'] = list(self.requestant.headers.items())  # copy.copy(self.requestant.headers)  # make copy
-        data['body'] = self.requestant.body.decode('utf-8')
+        data['body'] = self.requestant.body.decode('utf-8', 'replace')
         data['data'] = copy.copy(self.requestant.data)  # make copy
 
         msg = self.responder.build(status=200, data=data)
@@ -1201,6 +1201,10 @@ class BareServer():
                 steward.requestant.parse()
 
                 if steward.requestant.ended:
+                    if steward.requestant.errored:  # invalid request
+                        sys.stderr.write(steward.requestant.error)
+                        self.closeConnection(ca)
+                        continue
                     steward.requestant.dictify()
                     logger.info("Parsed Request: %s %s %s",
                                 steward.requestant.method,
